@@ -2,6 +2,8 @@ package eng
 
 import (
 	"fmt"
+	"math"
+	"strings"
 	"time"
 
 	"github.com/ostafen/clover/v2/document"
@@ -26,7 +28,8 @@ func HostileCrits() []*m.Crit {
 		m.Leaf("gte", "x", time.Unix(0, 0).UTC()), m.Leaf("lt", "x", true), m.Like("x", "("), m.Like("x", ""),
 		m.And(m.Leaf("gt", "x", int64(5)), m.Leaf("lt", "x", int64(1))), m.And(m.Leaf("gte", "x", "a"), m.Leaf("lte", "x", int64(1))),
 		m.Or(m.And(x1, m.NotExists("y")), m.Not(m.Leaf("lt", "x", fy))), m.And(m.Func("never"), x1), m.Leaf("eq", "", int64(1)), m.Leaf("eq", "x.", int64(1)), m.Leaf("gt", ".", nil),
-		m.Leaf("eq", "_id", int64(3)), m.Leaf("gt", "_id", nil),
+		m.Leaf("eq", "_id", int64(3)), m.Leaf("gt", "_id", nil), m.Leaf("eq", strings.Repeat("a.", 300)+"z", int64(1)), m.Exists(strings.Repeat("n.", 50) + "a"),
+		m.Leaf("eq", "arr.k", int64(1)), m.Contains("arr", map[string]interface{}{"k": int64(1)}), m.Leaf("gt", "arr", []interface{}{map[string]interface{}{"k": int64(0)}}),
 	}
 }
 
@@ -51,14 +54,15 @@ func HostileSweep(run *ev.Run, backend string) {
 	}{
 		{"missing-collection", nil, false},
 		{"empty-collection", []m.Op{{K: "createColl", Coll: "a"}}, false},
-		{"populated", []m.Op{{K: "createColl", Coll: "a"}, {K: "insert", Coll: "a", Docs: DefaultDataset()}}, false},
+		{"populated", []m.Op{{K: "createColl", Coll: "a"}, {K: "insert", Coll: "a", Docs: append(DefaultDataset(), m.Doc{"_id": ID(50), "arr": []interface{}{map[string]interface{}{"k": int64(1)}, map[string]interface{}{"k": int64(1), "j": nil}, int64(3)}})}}, false},
 		{"populated+index-x", []m.Op{{K: "createColl", Coll: "a"}, {K: "createIndex", Coll: "a", Field: "x"}, {K: "insert", Coll: "a", Docs: DefaultDataset()}}, false},
 		{"populated+indexes-x-y-n.a", []m.Op{{K: "createColl", Coll: "a"}, {K: "insert", Coll: "a", Docs: DefaultDataset()}, {K: "createIndex", Coll: "a", Field: "x"}, {K: "createIndex", Coll: "a", Field: "y"}, {K: "createIndex", Coll: "a", Field: "n.a"}}, false},
 		{"indexed+non-canonical-uuid-ids", []m.Op{{K: "createColl", Coll: "a"}, {K: "createIndex", Coll: "a", Field: "x"}, {K: "createIndex", Coll: "a", Field: "y"}, {K: "insert", Coll: "a", Docs: nonCanonicalIDDocs()}}, false},
 		{"closed-handle", []m.Op{{K: "createColl", Coll: "a"}, {K: "createIndex", Coll: "a", Field: "x"}, {K: "insert", Coll: "a", Docs: DefaultDataset()}}, true},
 	}
 	shapes := []Shape{{}, {Sort: []m.SortOpt{{Field: "x", Dir: -1}}}, {Sort: []m.SortOpt{{Field: "y", Dir: 1}, {Field: "x", Dir: 0}}, SkipSet: true, Skip: 1, LimitSet: true, Limit: 2},
-		{SortDef: true, LimitSet: true, Limit: 0}, {SkipSet: true, Skip: 100, LimitSet: true, Limit: -5}, {Sort: []m.SortOpt{{Field: "", Dir: 1}}}}
+		{SortDef: true, LimitSet: true, Limit: 0}, {SkipSet: true, Skip: 100, LimitSet: true, Limit: -5}, {Sort: []m.SortOpt{{Field: "", Dir: 1}}},
+		{SkipSet: true, Skip: math.MaxInt64, LimitSet: true, Limit: math.MaxInt64}, {Sort: []m.SortOpt{{Field: "x", Dir: math.MinInt64}}, SkipSet: true, Skip: math.MinInt64, LimitSet: true, Limit: math.MinInt64}}
 	crits := HostileCrits()
 	tmp := drv.WriteTemp("hostile-export.json", "")
 	imp := drv.WriteTemp("hostile-import.json", `[{"x":1}]`)
